@@ -64,6 +64,37 @@ REACH = [("F3", {"Deviations": '{"F3"}'}, ["Converged"]), ("noflush", {"Deviatio
          ("FilteredOut", {}, ["Reach_FilteredOut"]), ("TwoSubsOneNode", {}, ["Reach_TwoSubsOneNode"]), ("Unclaimed", {"Quiet": "TRUE"}, ["Reach_Unclaimed"])]
 
 
+# The model's node name b stands for any name.  For some instances every behaviour is replayed a second time with b spelt q(1) - a name
+# whose characters are operators in a pattern - and every pattern naming it in its escaped form q\\(1\\) (what EscapeRegexTokens gives): the
+# wildcard-free clauses go through the matcher's direct child lookup, which has to remove the escapes again.
+ODD, ODD_ESC = "q(1)", "q\\(1\\)"
+
+
+def _odd_pattern(sp):
+    return "/".join(",".join(ODD_ESC if a == "b" else a for a in cl.split(",")) for cl in sp.split("/"))
+
+
+def _odd_path(p):
+    return [ODD if (i > 0 and x == "b") else x for i, x in enumerate(p)]
+
+
+def _odd_cmd(c):
+    c = dict(c)
+    if "q" in c: c["q"] = [ODD if x == "b" else x for x in c["q"]]
+    if "key" in c: c["key"] = _odd_pattern(c["key"])
+    if "sp" in c: c["sp"] = _odd_pattern(c["sp"])
+    if "subs" in c: c["subs"] = [dict(e, sp=_odd_pattern(e["sp"])) for e in c["subs"]]
+    if "ops" in c: c["ops"] = [_odd_cmd(o) for o in c["ops"]]
+    return c
+
+
+def odd_names(step):
+    st = dict(step); st["cmd"] = _odd_cmd(step["cmd"])
+    st["exp"] = {s: [[_odd_path(p), v] for p, v in m] for s, m in step["exp"].items()}
+    st["unc"] = {s: [_odd_path(p) for p in u] for s, u in step["unc"].items()}
+    return st
+
+
 def opname(cmd):
     o = cmd["op"]
     if o == "subscribe" and len(cmd["subs"]) == 2: return "subscribe2"
@@ -96,7 +127,10 @@ def run(v, tier, seed):
         smp = [w for w in walks if len(w) >= 4][:1]
         del r.printed[:]
         bf = W("beh_%s.ndjson" % name); rep = W("rep_%s.ndjson" % name)
-        vlib.write_ndjson(bf, [{"id": i, "kind": "subs", "sessions": I["sessions"], "connect": I["sessions"], "steps": w} for i, w in enumerate(walks)])
+        beh = [{"id": i, "kind": "subs", "sessions": I["sessions"], "connect": I["sessions"], "steps": w} for i, w in enumerate(walks)]
+        if name in ("core", "menu", "menu6"):
+            beh += [{"id": len(walks) + i, "kind": "subs", "sessions": I["sessions"], "connect": I["sessions"], "steps": [odd_names(st) for st in w]} for i, w in enumerate(walks)]
+        vlib.write_ndjson(bf, beh)
         rc.run_refl(["replay", bf, rep], timeout=(300 if tier == "quick" else 2400))
         rows = vlib.read_ndjson(rep)
         os.remove(bf)
@@ -191,5 +225,6 @@ def run(v, tier, seed):
     assumptions = ["the client protocol of DESIGN.md C04: updates applied in order, removals before sets; after removing a subscription (and after an explicit GETDATA) the client drops what its remaining subscriptions do not select; nodes touched by quiet operations are outside the claim until the client hears of them again",
                    "single-threaded pumping of the server (ServerProcessLoop(0)) to quiescence after every command: interleavings of the sessions' commands are sequences of whole commands",
                    "SubsImpl visits children in a canonical order (the code: creation order), so the batching of updates is compared only through the mirrors; results about a session's own nodes are ignored by the client",
-                   "one spelling per subscription path per session outside the directed case of F27; quiet parts inside BATCH Messages are not generated"]
+                   "one spelling per subscription path per session outside the directed case of F27; quiet parts inside BATCH Messages are not generated",
+                   "node names with pattern metacharacters: q(1), always named in patterns in its escaped form (replay of the instances core / menu with b spelt q(1); third name of the random histories)"]
     return "model_checking", cov, assumptions
